@@ -1,6 +1,6 @@
 //! C04 — add / sub / neg
 use crate::util::*;
-use crypto_bigint::subtle::CtOption;
+use crypto_bigint::subtle::{Choice, ConditionallySelectable, ConstantTimeEq, CtOption};
 use crypto_bigint::{BoxedUint, Checked, CheckedAdd, CheckedSub, Limb, Uint, Wrapping, WrappingAdd, WrappingNeg, WrappingSub};
 
 fn agree(vals: &[String]) -> String {
@@ -99,12 +99,178 @@ fn fixed<const N: usize>(op: &str, a: &[&str]) -> Option<String> {
                 agree(&[optu(r3.0), optu(a3.0)])
             )
         }
+        // ---- coverage round: `Checked<Uint<N>>` trait forms (src/checked.rs 266-300)
+        // operands are CtOptions `(x, sx)`, `(y, sy)` with chosen `is_some`; prints
+        // conditional_select  ct_eq  default  [From<Checked> for CtOption | From<CtOption> for Checked | From<Checked> for Option](a)
+        ("c04.u.checked_ct", [x, sx, y, sy, c]) => {
+            let (x, y) = (arg!(uint::<N>(x)), arg!(uint::<N>(y)));
+            let (sx, sy, c) = (arg!(tochoice(sx)), arg!(tochoice(sy)), arg!(tochoice(c)));
+            let a = Checked(CtOption::new(x, sx));
+            let b = Checked(CtOption::new(y, sy));
+            let sel = Checked::conditional_select(&a, &b, c);
+            let eq = a.ct_eq(&b);
+            let dflt = Checked::<Uint<N>>::default();
+            let as_ct: CtOption<Uint<N>> = CtOption::from(a);
+            let back: Checked<Uint<N>> = Checked::from(CtOption::new(x, sx));
+            let as_opt: Option<Uint<N>> = Option::from(a);
+            format!(
+                "{} {} {} {}",
+                optu(sel.0),
+                choice(eq),
+                optu(dflt.0),
+                agree(&[optu(as_ct), optu(back.0), as_opt.map(|v| uhex(&v)).unwrap_or("none".into())])
+            )
+        }
+        // ---- coverage round: `Wrapping<Uint<N>>` trait forms (src/wrapping.rs 187-231); prints
+        // conditional_select  ct_eq  zero  is_zero(x)  one  is_one(x)
+        ("c04.u.wrapping_ct", [x, y, c]) => {
+            let (x, y, c) = (Wrapping(arg!(uint::<N>(x))), Wrapping(arg!(uint::<N>(y))), arg!(tochoice(c)));
+            let sel = Wrapping::conditional_select(&x, &y, c);
+            let eq = x.ct_eq(&y);
+            let zero = agree(&[
+                uhex(&<Wrapping<Uint<N>> as crypto_bigint::Zero>::zero().0),
+                uhex(&<Wrapping<Uint<N>> as num_traits::Zero>::zero().0),
+            ]);
+            let one = <Wrapping<Uint<N>> as num_traits::One>::one();
+            format!(
+                "{} {} {zero} {} {} {}",
+                uhex(&sel.0),
+                choice(eq),
+                bit(num_traits::Zero::is_zero(&x)),
+                uhex(&one.0),
+                bit(num_traits::One::is_one(&x))
+            )
+        }
+        // `Wrapping<T>` formatting forwards to `T`: Display  UpperHex  LowerHex  Binary  (then the `#` forms)
+        ("c04.u.wrapping_fmt", [x]) => {
+            let x = arg!(uint::<N>(x));
+            wrapping_fmt_line(&x)
+        }
         _ => return None,
     })
 }
 
+/// every `fmt` trait of `Wrapping<T>` must print what `T` prints; text tokens are `x`-prefixed hex
+fn wrapping_fmt_line<T>(x: &T) -> String
+where
+    T: Clone + std::fmt::Display + std::fmt::UpperHex + std::fmt::LowerHex + std::fmt::Binary,
+{
+    let w = Wrapping(x.clone());
+    let t = |via_w: String, direct: String| {
+        if via_w == direct { bytes_tok(via_w.as_bytes()) } else { format!("routes-differ:{via_w}|{direct}") }
+    };
+    format!(
+        "{} {} {} {} {} {} {}",
+        t(format!("{w}"), format!("{x}")),
+        t(format!("{w:X}"), format!("{x:X}")),
+        t(format!("{w:x}"), format!("{x:x}")),
+        t(format!("{w:b}"), format!("{x:b}")),
+        t(format!("{w:#X}"), format!("{x:#X}")),
+        t(format!("{w:#x}"), format!("{x:#x}")),
+        t(format!("{w:#b}"), format!("{x:#b}"))
+    )
+}
+
 pub fn dispatch(op: &str, a: &[&str]) -> Option<String> {
     match (op, a) {
+        // ---- coverage round: assigning forms of `Wrapping<Limb>` / `Checked<Limb>` (src/limb/add.rs 47-73,
+        // src/limb/sub.rs 56-82) and the `WrappingNeg` trait form (src/limb/neg.rs 14-19); prints
+        // wrapping+=  wrapping-=  checked+=  checked-=  WrappingNeg::wrapping_neg(x)
+        ("c04.l.assign", [x, y]) => {
+            let (x, y) = (arg!(limb(x)), arg!(limb(y)));
+            let (mut w1, mut w2, mut w3, mut w4) = (Wrapping(x), Wrapping(x), Wrapping(x), Wrapping(x));
+            w1 += Wrapping(y);
+            w2 += &Wrapping(y);
+            w3 -= Wrapping(y);
+            w4 -= &Wrapping(y);
+            let (mut c1, mut c2, mut c3, mut c4) = (Checked::new(x), Checked::new(x), Checked::new(x), Checked::new(x));
+            c1 += Checked::new(y);
+            c2 += &Checked::new(y);
+            c3 -= Checked::new(y);
+            c4 -= &Checked::new(y);
+            Some(format!(
+                "{} {} {} {} {}",
+                agree(&[lhex(w1.0), lhex(w2.0)]),
+                agree(&[lhex(w3.0), lhex(w4.0)]),
+                agree(&[optl(c1.0), optl(c2.0)]),
+                agree(&[optl(c3.0), optl(c4.0)]),
+                lhex(WrappingNeg::wrapping_neg(&x))
+            ))
+        }
+        // a `none` on either side is sticky through the assigning forms as well: `(x, sx) += (y, sy)`, `-=`
+        ("c04.l.checked_assign", [x, sx, y, sy]) => {
+            let (x, y) = (arg!(limb(x)), arg!(limb(y)));
+            let (sx, sy) = (arg!(tochoice(sx)), arg!(tochoice(sy)));
+            let mk = |v: Limb, s: Choice| Checked(CtOption::new(v, s));
+            let (mut c1, mut c2, mut c3, mut c4) = (mk(x, sx), mk(x, sx), mk(x, sx), mk(x, sx));
+            c1 += mk(y, sy);
+            c2 += &mk(y, sy);
+            c3 -= mk(y, sy);
+            c4 -= &mk(y, sy);
+            Some(format!("{} {}", agree(&[optl(c1.0), optl(c2.0)]), agree(&[optl(c3.0), optl(c4.0)])))
+        }
+        // `Checked<Limb>` / `Wrapping<Limb>` trait forms (same generic code as the `Uint` lines, other instantiation)
+        ("c04.l.checked_ct", [x, sx, y, sy, c]) => {
+            let (x, y) = (arg!(limb(x)), arg!(limb(y)));
+            let (sx, sy, c) = (arg!(tochoice(sx)), arg!(tochoice(sy)), arg!(tochoice(c)));
+            let a = Checked(CtOption::new(x, sx));
+            let b = Checked(CtOption::new(y, sy));
+            let sel = Checked::conditional_select(&a, &b, c);
+            let eq = a.ct_eq(&b);
+            let dflt = Checked::<Limb>::default();
+            let as_ct: CtOption<Limb> = CtOption::from(a);
+            let back: Checked<Limb> = Checked::from(CtOption::new(x, sx));
+            let as_opt: Option<Limb> = Option::from(a);
+            Some(format!(
+                "{} {} {} {}",
+                optl(sel.0),
+                choice(eq),
+                optl(dflt.0),
+                agree(&[optl(as_ct), optl(back.0), as_opt.map(lhex).unwrap_or("none".into())])
+            ))
+        }
+        ("c04.l.wrapping_ct", [x, y, c]) => {
+            let (x, y, c) = (Wrapping(arg!(limb(x))), Wrapping(arg!(limb(y))), arg!(tochoice(c)));
+            let sel = Wrapping::conditional_select(&x, &y, c);
+            let eq = x.ct_eq(&y);
+            let zero = agree(&[
+                lhex(<Wrapping<Limb> as crypto_bigint::Zero>::zero().0),
+                lhex(<Wrapping<Limb> as num_traits::Zero>::zero().0),
+            ]);
+            let one = <Wrapping<Limb> as num_traits::One>::one();
+            Some(format!(
+                "{} {} {zero} {} {} {}",
+                lhex(sel.0),
+                choice(eq),
+                bit(num_traits::Zero::is_zero(&x)),
+                lhex(one.0),
+                bit(num_traits::One::is_one(&x))
+            ))
+        }
+        ("c04.l.wrapping_fmt", [x]) => Some(wrapping_fmt_line(&arg!(limb(x)))),
+        // `Wrapping<BoxedUint>`: ct_eq (zero padded, any two precisions), num_traits zero / is_zero / one / is_one, fmt
+        ("c04.b.wrapping_ct", [na, x, nb, y]) => {
+            let (x, y) = (Wrapping(arg!(boxed(x, arg!(dec(na))))), Wrapping(arg!(boxed(y, arg!(dec(nb))))));
+            let zero = agree(&[
+                bhexlen(&<Wrapping<BoxedUint> as crypto_bigint::Zero>::zero().0),
+                bhexlen(&<Wrapping<BoxedUint> as num_traits::Zero>::zero().0),
+            ]);
+            let one = <Wrapping<BoxedUint> as num_traits::One>::one();
+            Some(format!(
+                "{} {zero} {} {} {}",
+                choice(x.ct_eq(&y)),
+                bit(num_traits::Zero::is_zero(&x)),
+                bhexlen(&one.0),
+                bit(num_traits::One::is_one(&x))
+            ))
+        }
+        ("c04.b.wrapping_fmt", [n, x]) => Some(wrapping_fmt_line(&arg!(boxed(x, arg!(dec(n)))))),
+        // `Octal` forwarding has no crate-owned operand type; a primitive word exercises it
+        ("c04.w.wrapping_octal", [x]) => {
+            let x = arg!(word(x));
+            let (a, b) = (format!("{:o}", Wrapping(x)), format!("{:o}", x));
+            Some(if a == b { bytes_tok(a.as_bytes()) } else { format!("routes-differ:{a}|{b}") })
+        }
         ("c04.w.adc", [x, y, c]) => {
             let (r, c) = arg!(limb(x)).adc(arg!(limb(y)), arg!(limb(c)));
             Some(format!("{} {}", lhex(r), lhex(c)))
